@@ -7,6 +7,7 @@
   Every theorem is for ALL meshes / ALL parameter values and every payload type `α`.
 -/
 import PolyVerif.Lemmas.MeshWF
+import PolyVerif.Lemmas.MeshCorners
 import PolyVerif.Lemmas.PrimIdx
 
 namespace PolyVerif.C02
@@ -85,6 +86,9 @@ theorem unweld_wf {m : MeshVal α} (h : WF m) : WF m.unweld := MeshVal.unweld_wf
 theorem toPointCloud_wf {m : MeshVal α} (h : WF m) : WF m.toPointCloud := MeshVal.toPointCloud_wf h
 
 theorem flip_wf {m m' : MeshVal α} (h : WF m) (hf : m.flip = some m') : WF m' := MeshVal.flip_wf h hf
+
+theorem removeUnreferenced_wf {m : MeshVal α} (h : WF m) : WF m.removeUnreferenced :=
+  MeshVal.removeUnreferenced_wf h
 
 /-- `SetIndices` is the one setter that can break well-formedness: it preserves it exactly under
     the stated side conditions (the Go code does not check them). -/
